@@ -80,6 +80,7 @@ static void c06_gen_common(Tape &t, Case &c, bool bulkmode) {
 static void c06_gen(Tape &t, Case &c) { c06_gen_common(t, c, false); }
 static void c06_gen_bulk(Tape &t, Case &c) { c06_gen_common(t, c, true); }
 void c06_gen_bulk_public(Tape &t, Case &c) { c06_gen_common(t, c, true); }
+void c06_gen_public(Tape &t, Case &c) { c06_gen_common(t, c, false); }
 
 static bool has_dup_name(const Model &m, const Op &o) {
   bool rows = o.k == "newrow" || o.k == "addrows";
